@@ -422,3 +422,33 @@ mod bench {
         b.iter(|| PrcBitTable::from_errors(&errors, 123usize));
     }
 }
+
+#[cfg(flacenc_verif)]
+#[doc(hidden)]
+pub mod verif_hooks {
+    use super::*;
+
+    pub fn table_from_errors(errors: &[u32], offset: usize) -> [u32; 16] {
+        PrcBitTable::from_errors(errors, offset).p_to_bits.as_array().to_owned()
+    }
+
+    pub fn table_merge(a: [u32; 16], b: [u32; 16], offset: usize) -> [u32; 16] {
+        let ta = PrcBitTable { p_to_bits: simd::u32x16::from_array(a) };
+        let tb = PrcBitTable { p_to_bits: simd::u32x16::from_array(b) };
+        ta.merge(&tb, offset).p_to_bits.as_array().to_owned()
+    }
+
+    pub fn table_minimizer(a: [u32; 16], max_p: usize) -> (usize, usize) {
+        PrcBitTable { p_to_bits: simd::u32x16::from_array(a) }.minimizer(max_p)
+    }
+
+    pub fn finest_order(size: usize, min_part_size: usize) -> usize {
+        finest_partition_order(size, min_part_size)
+    }
+
+    /// (partition order, parameters, code bits)
+    pub fn find(signal: &[i32], warmup_length: usize, max_p: usize) -> (usize, Vec<u8>, usize) {
+        let p = find_partitioned_rice_parameter(signal, warmup_length, max_p);
+        (p.order, p.ps, p.code_bits)
+    }
+}
